@@ -47,6 +47,12 @@ def depth(tier):
     return 4
 
 
+def extra_runs(tier):
+    """a second, small history tree with TWO labels: depth 5 over 9 symbols"""
+    syms = progs.pick(progs.LABELARITH, 'liLab', 'dwOff') + progs.pick(progs.CODE_C, 'addi8') + progs.pick(progs.VAR, 'li1') + progs.pick(progs.XFER, 'call') + [progs.DEF]
+    return [(progs.instantiate(syms, ['A', 'B']), 5)]
+
+
 DEEP = 5       # thorough: additionally all closed programs of <= 5 lines over the quick alphabet
 
 
